@@ -23,6 +23,10 @@ type InterfaceMethod struct {
 	Name    string
 	Inputs  []InterfaceType
 	Outputs []InterfaceType
+	// ID is types.Func.Id(): an unexported name qualified by its package,
+	// since unexported methods of different packages are different methods.
+	// Empty in hand-built models, which are then matched by Name
+	ID string
 }
 
 // InterfaceType
@@ -133,6 +137,7 @@ func extractMethodsFromInterface(iface *types.Interface) []InterfaceMethod {
 			Name:    method.Name(),
 			Inputs:  extractTypesFromTuple(sig.Params(), sig.Variadic()),
 			Outputs: extractTypesFromTuple(sig.Results(), false),
+			ID:      method.Id(),
 		})
 	}
 
